@@ -10,6 +10,7 @@ mod corpus;
 mod cparse;
 mod gen;
 mod gen2;
+mod gen3;
 mod props;
 mod sem;
 
